@@ -219,15 +219,30 @@ def _sh_arange(*a, **kw):
         ring = ringnf.Ring([], ringnf.nonzero_atoms(path.assume + path.pc))
         N = None
         try:
-            for cand in range(0, 129):
-                if ring.is_zero(stop.t - start.t - cand * step.t):
-                    N = cand
+            # candidate for the constant ratio (stop-start)/step from one model of the path
+            import math
+            from fractions import Fraction
+            sv = z3.Solver()
+            sv.set("timeout", 3000)
+            for f in path.assume + path.pc:
+                sv.add(f)
+            q = z3.Real("arange!q")
+            sv.add(step.t != 0, q * step.t == stop.t - start.t)
+            cands = []
+            if sv.check() == z3.sat:
+                v = sv.model().eval(q, model_completion=True)
+                if z3.is_rational_value(v):
+                    cands.append(Fraction(v.numerator_as_long(), v.denominator_as_long()))
+            cands += list(range(0, 65))
+            for cand in cands:
+                if ring.is_zero(stop.t - start.t - z3.RealVal(cand) * step.t):
+                    N = max(int(math.ceil(cand)), 0)      # numpy: ceil((stop-start)/step) elements
                     break
         except ringnf.NotPoly:
             N = None
         if N is None:
             raise symrun.Unsupported("np.arange with symbolic bounds: (stop-start)/step is not a "
-                                     "constant integer")
+                                     "constant on this path")
         out = np.empty(N, dtype=object)
         for m in range(N):
             out[m] = start + m * step
